@@ -191,7 +191,34 @@ def hist_h4():
     p.cleanup()
 
 
+def hist_h5():
+    """large cases: one 150000-element output (about 3 MB of text per case), so that SQLite has
+    to spill pages of the open transaction to the database file before the commit; a process that
+    dies inside such a transaction leaves a hot rollback journal the reader has to play back"""
+    import numpy as np
+    import openmdao.api as om
+    rec = om.SqliteRecorder(os.path.abspath('h5.sql'), record_viewer_data=False)
+    p = om.Problem(reports=None)
+    n = 150000
+    p.model.add_subsystem('ivc', om.IndepVarComp('s', 1.5), promotes=['*'])
+    p.model.add_subsystem('big', om.ExecComp('v = s * k', k=np.arange(n) * 1.000000001 + 0.123456789,
+                                             v={'shape': (n,)}, has_diag_partials=True),
+                          promotes=['*'])
+    p.model.add_design_var('s', lower=-4, upper=4)
+    p.model.add_objective('v', index=0)
+    p.driver.add_recorder(rec)
+    p.driver.recording_options['includes'] = ['*']
+    p.setup()
+    p.run_driver(case_prefix='d1')
+    p.set_val('s', -2.25)
+    p.run_driver(case_prefix='d2')
+    p.set_val('s', 0.75)
+    p.run_driver(case_prefix='d3')
+    p.cleanup()
+
+
 HIST = {
+    'H5': (hist_h5, ['h5.sql']),
     'H1': (hist_h1, ['h1.sql']),
     'H2': (hist_h2, ['h2_out/drv.sql', 'sys.sql']),
     'H3': (hist_h3, ['h3.sql']),
